@@ -5,11 +5,13 @@
    (2) any structure read through such a sequence yields exactly its wire values, at any position;
    (3) a counter sample's records — any number and order of the six supported kinds and of unsupported
        ones — decode to exactly the wire values, unsupported ones being skipped by their declared length.
-   The flow-sample records (sampled packet header breakdown, extended switch / router) and the
-   datagram-level composition are tied by the correspondence run against a specification-built
-   generator; they are not yet theorems (label: partial). *)
-From VF Require Import Base.Prelude Base.Json Model.Layout Model.JsonPieces Model.Sflow Spec.SflowWire
-  Proofs.SflowLayouts Proofs.SflowFidelity.
+   (4) the breakdown of a sampled header - Ethernet II with or without an 802.1Q tag, IPv4 with any options, IPv6, then
+       TCP, UDP or ICMP - returns exactly the header fields (Spec/PacketWire.v);
+   (5) flow records (sampled header with XDR padding, extended switch, extended router, unsupported ones skipped), flow
+       samples, counter samples, any sequence of samples incl. unsupported types, and the whole datagram (IPv4 or IPv6
+       agent) decode to exactly the demanded document (Spec/SflowDatagram.v), for the layouts REGENERATED from the Go source. *)
+From VF Require Import Base.Prelude Base.IPText Base.Json Model.Layout Model.JsonPieces Model.Packet Model.Sflow Spec.SflowWire Spec.PacketWire Spec.SflowDatagram
+  Proofs.SflowLayouts Proofs.SflowFidelity Proofs.PacketFidelity Proofs.SflowView Proofs.SflowDatagramFidelity.
 From VF Require Gen.Layouts.
 Module G := VF.Gen.Layouts.
 
@@ -59,4 +61,66 @@ Proof.
   cbn zeta. split.
   - repeat constructor; cbn; try lia; try reflexivity.
   - vm_compute. reflexivity.
+Qed.
+
+(* (4) sampled headers *)
+Theorem C07_packet_ethernet_fidelity : forall e l3 l4 trailing,
+  eth_ok e -> eth_type e = l3_ethertype l3 -> l3_ok l3 -> l4_ok l4 -> l4_proto_ok (l3_proto l3) l4 ->
+  packet_decode (enc_eth e ++ enc_l3 l3 ++ enc_l4 l4 ++ trailing) 1
+  = Ok (JObj [("L2"%string, eth_json e); ("L3"%string, l3_json l3); ("L4"%string, l4_json l4 trailing)]).
+Proof. exact packet_decode_ethernet_fidelity. Qed.
+Print Assumptions C07_packet_ethernet_fidelity.
+
+Theorem C07_packet_ip_fidelity : forall l3 l4 trailing, l3_ok l3 -> l4_ok l4 -> l4_proto_ok (l3_proto l3) l4 ->
+  packet_decode (enc_l3 l3 ++ enc_l4 l4 ++ trailing) (l3_protocol l3)
+  = Ok (JObj [("L2"%string, empty_l2); ("L3"%string, l3_json l3); ("L4"%string, l4_json l4 trailing)]).
+Proof. exact packet_decode_ip_fidelity. Qed.
+Print Assumptions C07_packet_ip_fidelity.
+
+(* (5) records, samples, datagram: the decoder the collector runs (layouts and member orders regenerated from the source) *)
+Definition sf_decode_src :=
+  sf_decode G.sf_flow_sample_layout G.sf_counter_sample_layout G.sf_ext_switch_layout G.sf_generic_layout G.sf_ethernet_layout
+            G.sf_tokenring_layout G.sf_vg_layout G.sf_vlan_layout G.sf_processor_layout
+            G.sf_flow_sample_fields G.sf_counter_sample_fields G.sf_ext_switch_fields G.sf_generic_fields G.sf_ethernet_fields
+            G.sf_tokenring_fields G.sf_vg_fields G.sf_vlan_fields G.sf_processor_fields.
+
+Theorem C07_datagram_fidelity : forall d, dgram_wf d ->
+  sf_decode_src [] (enc_dgram d)
+  = Ok (true, match expected_samples (sf_samples d), expected_counters (sf_samples d) with [], [] => None | _, _ => Some (dgram_json d) end).
+Proof.
+  intros d H. unfold sf_decode_src.
+  rewrite (proj1 tie_flow_sample), (proj2 tie_flow_sample), (proj1 tie_counter_sample), (proj2 tie_counter_sample),
+    (proj1 tie_ext_switch), (proj2 tie_ext_switch), (proj1 tie_generic), (proj2 tie_generic), (proj1 tie_ethernet), (proj2 tie_ethernet),
+    (proj1 tie_tokenring), (proj2 tie_tokenring), (proj1 tie_vg), (proj2 tie_vg), (proj1 tie_vlan), (proj2 tie_vlan),
+    (proj1 tie_processor), (proj2 tie_processor).
+  apply sf_decode_fidelity, H.
+Qed.
+Print Assumptions C07_datagram_fidelity.
+
+Theorem C07_flow_records_fidelity : forall recs r t m fuel,
+  view r (flat_map enc_frec recs ++ t) -> Forall frec_wf recs -> (length recs < fuel)%nat ->
+  exists r', flow_records ext_switch (members ext_switch) fuel (len recs) r m
+             = Ok (fold_left (fun acc f => frec_effect f acc) recs m, r') /\ view r' t.
+Proof. exact flow_records_fidelity. Qed.
+Print Assumptions C07_flow_records_fidelity.
+
+(* non-vacuity: an IPv6-agent datagram with an unsupported sample, a flow sample (802.1Q-tagged Ethernet / IPv4 with options /
+   TCP sampled header of 63 octets (one pad octet), an unsupported record, an extended router record) and a counter sample *)
+Definition ex_eth : eth_hdr := {| eth_dst := [1; 2; 3; 4; 5; 6]; eth_src := [10; 11; 12; 13; 14; 15]; eth_vlan := Some 100; eth_type := 2048 |}.
+Definition ex_ip4 : ip4_hdr := {| i4_ihl := 6; i4_tos := 0; i4_totlen := 60; i4_id := 7; i4_flags := 2; i4_fragoff := 0; i4_ttl := 64; i4_proto := 6;
+                                  i4_csum := 4660; i4_src := [10; 0; 0; 1]; i4_dst := [10; 0; 0; 2]; i4_options := [1; 1; 1; 1] |}.
+Definition ex_tcp : l4_hdr := L4tcp 443 51000 1 2 5 18 1024 0 0.
+Definition ex_hdr : bytes := enc_eth ex_eth ++ enc_l3 (L3v4 ex_ip4) ++ enc_l4 ex_tcp ++ [9].
+Definition ex_pk : jv := JObj [("L2"%string, eth_json ex_eth); ("L3"%string, l3_json (L3v4 ex_ip4)); ("L4"%string, l4_json ex_tcp [9])].
+Definition ex_dgram : sf_dgram :=
+  {| sf_v6 := true; sf_agent := [32; 1; 13; 184; 0; 0; 0; 0; 0; 0; 0; 0; 0; 0; 0; 1]; sf_sub := 0; sf_seq := 77; sf_uptime := 1000;
+     sf_samples := [SOtherS 4413 [1; 2; 3; 4];
+                    SFlowS [5; 0; 1; 256; 1000; 0; 3; 4; 3] [FRaw 1 1500 4 ex_hdr ex_pk; FUnknown 2000 [0; 0; 0; 0]; FRouter false [192; 0; 2; 1] 24 16];
+                    SCounterS [6; 0; 1; 1] [CKnown 1001 "Proc" processor [1; 2; 3; 4; 5]]] |}.
+Example C07_datagram_instance : dgram_wf ex_dgram /\ expected_samples (sf_samples ex_dgram) <> [].
+Proof.
+  split; [|discriminate]. unfold dgram_wf, ex_dgram. cbn [sf_v6 sf_agent sf_sub sf_seq sf_uptime sf_samples].
+  repeat split; try (cbn; lia).
+  repeat constructor; cbn [sample_wf frec_wf crec_wf]; repeat split; try (cbn; lia); try reflexivity; try discriminate;
+    try (repeat constructor; cbn; lia).
 Qed.
